@@ -141,7 +141,7 @@ func judge(sc *Scenario, res *result) (misses []miss, classes []string) {
 				want = src.Step.Status
 			}
 			switch {
-			case src == nil || src.Wrote != "full":
+			case src == nil || src.Wrote != "full" && src.Wrote != "full?":
 				add(true, "reply-nobody-sent", "client got the upstream reply of attempt %d which no upstream sent completely: %+v", first.Attempt, *first)
 			case first.Status != want || first.Body != upBody(res.Token, first.Attempt) || sc.Proto != "Http1" && first.Token != res.Token:
 				add(true, "upstream-reply-altered", "attempt %d sent status %d, client got %+v", first.Attempt, want, *first)
@@ -159,17 +159,15 @@ func judge(sc *Scenario, res *result) (misses []miss, classes []string) {
 				if sc.Special != "no-route" {
 					add(true, "unexplained-status:no-route", "404 although the route matches")
 				}
-			case "no-route-or-upstream-failure":
-				if sc.Special != "no-route" && !failureInjected {
-					add(true, "unexplained-status:upstream-failure", "status %d but no reset / connection failure / missing route was injected", first.Status)
-				}
-			case "upstream-failure":
-				if !failureInjected && sc.Special != "no-host" {
+			case "no-route-or-upstream-failure", "upstream-failure":
+				if !failureInjected && sc.Special == "" {
 					sig := "unexplained-status:upstream-failure"
 					if sc.Proto == "Http1" && len(res.Arrivals) >= 2 {
 						sig = "spurious-upstream-failure:Http1:attempt-after-locally-reset-attempt"
 					}
-					add(true, sig, "status %d but no reset / connection failure was injected in any attempt", first.Status)
+					// multiplexed pools give a fresh host 535 ms to finish the TCP handshake and answer "no healthy
+					// upstream" after that: on a stalled machine that is elapsed time, not an event, hence not a hard fact
+					add(sc.Proto == "Http1", sig, "status %d but no reset / connection failure was injected in any attempt", first.Status)
 				}
 			case "overflow":
 				add(true, "unexplained-status:overflow", "status %d: no resource limit is configured", first.Status)
@@ -319,17 +317,6 @@ func hangCause(sc *Scenario, res *result) string {
 		}
 		return false
 	}
-	// a retried upstream failure was delivered when the global timeout was (over)due, and a later attempt followed it
-	for i, a := range res.Arrivals {
-		if !retried(a) || a.DoneAt.IsZero() || a.DoneAt.Before(res.T0.Add(gt-5*time.Millisecond)) {
-			continue
-		}
-		for _, b := range res.Arrivals[i+1:] {
-			if b.At.After(a.DoneAt) && sc.TryMs == 0 {
-				return "global-timeout-due-while-retried-upstream-failure-pending:no-per-try-timeout"
-			}
-		}
-	}
 	stalledOnly := len(res.Arrivals) > 0
 	for _, a := range res.Arrivals {
 		if a.Step.Kind != "stall" && a.Step.Kind != "partial-stall" {
@@ -338,6 +325,30 @@ func hangCause(sc *Scenario, res *result) string {
 	}
 	if stalledOnly && sc.TryMs == 0 && (sc.Post || sc.Proto != "Http1") && !sc.allLive() {
 		return "request-with-body:first-attempt-failed-before-body-was-sent:no-per-try-timeout"
+	}
+	// a retry was being set up at the moment the global timer fired: an upstream failure that gets retried was
+	// delivered within 5 ms of the global timeout, or the whole process was stalled across the global timeout
+	// (then every overdue event fires at once) and the request had something to retry
+	near := func(at time.Time) bool {
+		d := at.Sub(res.T0.Add(gt))
+		return d > -5*time.Millisecond && d < 5*time.Millisecond
+	}
+	retryEvidence := len(res.Arrivals) >= 2 || !sc.allLive()
+	for _, a := range res.Arrivals {
+		if retried(a) && !a.DoneAt.IsZero() {
+			retryEvidence = true
+			if near(a.DoneAt) {
+				return "global-timeout-fired-while-retry-was-being-set-up"
+			}
+		}
+	}
+	for _, t := range res.RstUs {
+		if near(res.T0.Add(time.Duration(t) * time.Microsecond)) {
+			return "global-timeout-fired-while-retry-was-being-set-up"
+		}
+	}
+	if retryEvidence && res.StallAtGT {
+		return "global-timeout-fired-while-retry-was-being-set-up"
 	}
 	return sc.Proto
 }
